@@ -131,6 +131,18 @@ class FlowMixin:
                 rng = (lo[0], None if hi[1] is None else hi[1] - 1)
             elif cstep is not None and cstep < 0 and lo and hi:
                 rng = (None if hi[0] is None else hi[0] + 1, lo[1])
+            clo = const_of(norm(a["lo"]))
+            if cstep is not None and cstep > 1 and clo is not None:
+                # range(lo, hi, step): the item is lo + step * n for a fresh n >= 0, so stride and offset stay visible to linear reasoning
+                nm = st.fresh_name("n")
+                rngs = dict(st.extra.get("symrng", {}))
+                rngs[nm] = (0, None)
+                st.extra["symrng"] = rngs
+                item = Lin({nm: cstep}, clo)
+                lh = as_lin(norm(a["hi"]))
+                if lh is not None:
+                    self.add_fact(st, lin_add(lh, item, -1), ">0")
+                return item
             nm = st.fresh_name("i")
             rngs = dict(st.extra.get("symrng", {}))
             rngs[nm] = rng
@@ -149,10 +161,20 @@ class FlowMixin:
             rngs[nm] = (k, None)
             st.extra["symrng"] = rngs
             return Seq([Sym(nm, "int", rng=(k, None), role=("enum-index", k)), self.sym_item(v.attrs["of"], st, fr, node, k)], "tuple")
+        if isinstance(v, Ref) and v.kind == "dict" and st.heap[v.ident].opaque:
+            # iterating a dict yields its keys
+            v = Sym(st.fresh_name("keys"), "dictitems", label=v.label or path_text(getattr(node, "iter", node)) or "dict", of=v, notnone=True, view="keys")
         if isinstance(v, Sym) and v.ty == "dictitems":
             base = v.attrs.get("label", "dict")
-            return Seq([Sym(st.fresh_name(base + ".key"), v.attrs.get("kty", "int"), role=("dict-key", base, k)),
-                        Sym(st.fresh_name(base + ".val"), v.attrs.get("vty", "int"), role=("dict-val", base, k))], "tuple")
+            of = v.attrs.get("of")
+            vs = Sym(st.fresh_name(base + ".val"), v.attrs.get("vty", "int"), role=("dict-val", base, k))
+            ks = Sym(st.fresh_name(base + ".key"), v.attrs.get("kty", "int"), role=("dict-key", base, k), pairval=vs, of_dict=of.ident if isinstance(of, Ref) else None)
+            view = v.attrs.get("view", "items")
+            if view == "keys":
+                return ks
+            if view == "values":
+                return vs
+            return Seq([ks, vs], "tuple")
         bt = ty_of(v)
         if bt in ("bytes", "bytearray", "byteslike"):
             return Sym(st.fresh_name("byte"), "int", rng=(0, 255), of=v)
@@ -546,6 +568,15 @@ class FlowMixin:
                         elif exact:
                             st.extra["zero"] = set(st.extra.get("zero", ())) | {a.key()}
             if t is ast.Eq:
+                for a, b in ((lv, rv), (rv, lv)):
+                    # a key obtained by iterating a dict equals a constant: that constant's entry is the paired value
+                    if isinstance(a, Sym) and a.attrs.get("pairval") is not None and a.attrs.get("of_dict") is not None and isinstance(b, Const):
+                        dk = dict(st.extra.get("dictknown", {}))
+                        try:
+                            dk[(a.attrs["of_dict"], b.v)] = a.attrs["pairval"]
+                            st.extra["dictknown"] = dk
+                        except TypeError:
+                            pass
                 for a_node, a, b in ((lhs, lv, rv), (rhs, rv, lv)):
                     if isinstance(b, Const) and not isinstance(a, Const) and isinstance(a_node, (ast.Name, ast.Attribute)):
                         self._set_pv(a_node, b, st, fr, a)
